@@ -8,6 +8,7 @@ R19d scalar / MPI / time codecs: big-endian field agreement,
 R19e armor decoding refuses a wrong checksum,
 R19g iterated S2K hashing: salt+passphrase is hashed completely at least once (RFC 4880 3.7.1.3),
      only the repetitions are cut off at the octet count,
+R19h in the packet decoders the nonce length of an AEAD packet is that of the AEAD algorithm read,
 R19f fingerprint framing: v4 = SHA-1 over 0x99 | 2-octet length | body, v5 = SHA-256 over 0x9A |
      4-octet length | body; key ids are the low 64 bits (v4) / high 64 bits (v5) of the fingerprint."""
 from .. import evalx, seqeval
@@ -48,6 +49,7 @@ def run(ctx):
     r19d(ctx)
     r19e(ctx)
     r19f(ctx)
+    r19h(ctx)
     r19g(ctx)
 
 
@@ -560,6 +562,41 @@ def r19f(ctx):
         else:
             ctx.bad('R19f', key, 'key id is taken from octets %d..%d of the fingerprint, the standard prescribes %d..%d (%s)' % (rng[0], rng[1] - 1, lo, hi - 1, what), f)
     ctx.floor('R19f', sum(1 for r in ctx.results if r.rule == 'R19f' and r.status == 'ok'), 4)
+
+
+def r19h(ctx):
+    """nonce length of AEAD packets: in a packet decoder, once the AEAD algorithm octet of the packet
+    has been read (on every path to this point), the length of the starting IV / nonce is the one of
+    that AEAD algorithm (RFC 4880bis 5.16: OCB 15 octets, EAX 16), not the cipher's block size --
+    the two functions share a name and are overloaded on the enum type"""
+    import re
+    prog = ctx.prog
+    n = 0
+    for k, f in sorted(prog.funcs.items(), key=lambda kv: kv[1]['q']):
+        if 'RFC4880' not in f['file'] or not re.search(r'PacketDecodeTag\d+$', f['q']) or not f.get('body'):
+            continue
+        outp = [p_ for p_ in f['params'] if p_['n'] == 'out']
+        if not outp:
+            continue
+        a = ctx.analysis(f)
+        T = a.T
+        occ = 0
+        for nid, ev in sorted(a.all_events('call'), key=lambda x: (x[1][3], x[0])):
+            if ev[1].split('::')[-1] != 'AlgorithmIVLength' or len(ev[2]) != 1:
+                continue
+            st = a.instate[nid]
+            al = st.env.get(('f', ('v', outp[0]['id'], 'out'), 'aeadalgo'))
+            if al is None or T.op(al) == 'phi':
+                continue        # no AEAD algorithm read on (all paths to) this point
+            occ += 1
+            n += 1
+            key = 'R19h:%s#%d' % (f['q'].split('::')[-1], occ)
+            if ev[2][0] == al:
+                ctx.ok('R19h', key, 'the nonce length is taken from the AEAD algorithm read from the packet', f, line=ev[3])
+            else:
+                ctx.bad('R19h', key, 'the packet names an AEAD algorithm (%s) but the length of its nonce is derived from %s: for OCB (15 octets) the first '
+                        'ciphertext octet is taken for the IV' % (T.show(al, 3), T.show(ev[2][0], 3)), f, line=ev[3])
+    ctx.floor('R19h', n, 4)
 
 
 def r19g(ctx):
